@@ -16,13 +16,12 @@ SPECS = {
         ],
         "explanation": "Generic convergence theorem (commutation of concurrent operations => all causal delivery orders agree); commutation proved for counters, for array inserts on the RGAList model, for batches of object Sets and Removes (any delivery order) and for pairs of concurrent text edits on the character-level model of RGATreeSplit.edit; delivery discipline proved in C04. The structure models (RGAList incl. move/set/purge, ElementRHT, Counter, TextRGA) are compared with the real structures on random call sequences (text: 2-3 replicas of crdt.Text with causal delivery, the complete node list after every execution); the convergence oracle runs on real multi-client histories (2-5 clients, all flavors, push-only syncs).",
         "assumptions": [
-            "PARTIAL: proved - object members (batches of Sets and Removes, any order), text (pairs of concurrent edits; honesty preserved), counters, array inserts; not proved - array move/delete/set, text styles and n-ary text batches, tree; those clauses rest on the structure correspondence and on the convergence oracle",
+            "PARTIAL: proved - object members (batches of Sets and Removes, any order), text (any number of pairwise concurrent honest edits in any order), counters, array inserts; not proved - array move/delete/set, text styles, tree; those clauses rest on the structure correspondence and on the convergence oracle",
             "text model: characters instead of runs (the harness expands runs); styles, undo restore spans, GC and the index trees are not modelled",
             "Root/operation glue (operations.Execute, json proxies) is exercised only by the history oracle, not modelled",
         ],
     },
     "C02": {
-        "level": "translation_validation",
         "corr": ["RGA", "ERHT"],
         "engines": [
             {"name": "hist", "tag": "c02", "extra": "prop=C02", "n": {"quick": 500, "thorough": 8000}},
@@ -46,15 +45,16 @@ SPECS = {
         ],
     },
     "C07": {
-        "corr": ["RGA", "ERHT"],
+        "corr": ["RGA", "ERHT", "Text"],
         "engines": [
+            {"name": "textrga", "n": {"quick": 120, "thorough": 2000}, "seed_off": 9},
             {"name": "rga", "n": {"quick": 600, "thorough": 8000}, "seed_off": 3},
             {"name": "erht", "n": {"quick": 400, "thorough": 5000}, "seed_off": 3},
             {"name": "c07", "n": {"quick": 300, "thorough": 6000}},
             {"name": "c07tree", "n": {"quick": 250, "thorough": 4000}, "seed_off": 5},
         ],
-        "explanation": "Counter arithmetic proved (modular sum, wrap examples). Array index arithmetic: the RGAList model's linear scans are compared with the real treelist-backed Len/Get on every generated state. Text/array/object/counter editing calls on one Document (after random remote changes and GC) are compared with a plain reference (Go string/slice/map) by the c07 engine. The c07tree engine edits a tree with the full alphabet (text, paragraphs, inline elements, deletions, merges, splits, styles; remote edits and GC in between) and after every step compares Len and every index<->path conversion with a tree built from nothing but the visible XML (deleted content must not influence them; positions inside mixed text/element content, whose paths count text chunks, are skipped), and rebuilds arrays by DeepCopy and by the snapshot codec after moves, comparing Len and every Get(i) with the live array.",
-        "assumptions": ["text and tree index arithmetic have no Coq model: reference-model differential only"],
+        "explanation": "Counter arithmetic proved (modular sum, wrap examples). Text: a local edit at visible indices is a splice of the visible string (theorem on the TextRGA model, whose findNodePos and edit are compared with the real crdt.Text after every execution). Array index arithmetic: the RGAList model's linear scans are compared with the real treelist-backed Len/Get on every generated state. Text/array/object/counter editing calls on one Document (after random remote changes and GC) are compared with a plain reference (Go string/slice/map) by the c07 engine. The c07tree engine edits a tree with the full alphabet (text, paragraphs, inline elements, deletions, merges, splits, styles; remote edits and GC in between) and after every step compares Len and every index<->path conversion with a tree built from nothing but the visible XML (deleted content must not influence them; positions inside mixed text/element content, whose paths count text chunks, are skipped), and rebuilds arrays by DeepCopy and by the snapshot codec after moves, comparing Len and every Get(i) with the live array.",
+        "assumptions": ["text: splice theorem on the character-level model (ASCII; UTF-16 units and styles are not in the model), tied by the textrga engine incl. CreateRange; tree index arithmetic has no Coq model: reference-model differential only"],
     },
     "C08": {
         "corr": [],
